@@ -253,6 +253,22 @@ def run_bounded(chk):
                     probs = [f"{type(e).__name__}: {e}"[:200]]
                 if probs:
                     fails.append((f"Polyhedron.{what}:{name}/{tag}", {"points": P, "problems": probs}))
+    # nearly flat roofs: adjacent facets whose normals differ by 1e-8 .. 1e-10 rad are distinct facets (heights are powers of two, so the
+    # coordinates are exact and the hull's facets are decided exactly)
+    from fractions import Fraction
+    for k in (26, 28, 30, 32):
+        hgt = Fraction(1, 2**k)
+        for rname, roof in (("pyramid_roof", [(Fraction(1, 2), Fraction(1, 2), 1 + hgt)]), ("gable_roof", [(Fraction(1, 4), Fraction(1, 2), 1 + hgt), (Fraction(3, 4), Fraction(1, 2), 1 + hgt)])):
+            ptsq = [(Fraction(x), Fraction(y), Fraction(z)) for x in (0, 1) for y in (0, 1) for z in (0, 1)] + roof
+            exact = oracle.hull_facets(ptsq)
+            n_eval += 1
+            try:
+                shp = cox.shapes.ConvexPolyhedron([[float(c) for c in q] for q in ptsq])
+                probs = structure_problems(shp, [list(f) for f in exact])
+            except Exception as e:  # noqa: BLE001
+                probs = [f"{type(e).__name__}: {e}"[:200]]
+            if probs:
+                fails.append((f"ConvexPolyhedron:{rname}/height=2^-{k}", {"points": [[float(c) for c in q] for q in ptsq], "problems": probs}))
     # merge_faces must not depend on the order in which the triangles are listed: facets with five and more vertices (three
     # and more triangles each), triangles in fan order, reversed, shuffled, and in the order of the hull's own simplices
     many = {n: named[n] for n in named if any(len(f) >= 5 for f in oracle.hull_facets(named[n])) and len(named[n]) <= 24}
@@ -298,7 +314,7 @@ def run_bounded(chk):
     chk.bounded.append({"clause": "faces = exact hull facets, CCW from outside, unit outward planes containing their face with all other vertices inside, "
                                   "symmetric neighbours = shared edges, each edge once (i<j) sorted, Euler, num_edges, simplices triangulate faces; "
                                   "sort_faces restores this from scrambled face orders, merge_faces from a triangulated surface in any order of the triangles",
-                        "bound": "named convex solids with <= 12 vertices and 10 (quick) / 60 lattice polytopes; 4 (quick) / 13 vertex orders "
+                        "bound": "named convex solids with <= 12 vertices and 10 (quick) / 60 lattice polytopes; unit boxes with pyramid / gable roofs of height 2^-26 .. 2^-32; 4 (quick) / 13 vertex orders "
                                  "(all permutations for <= 5 points, thorough); 2 (quick) / 4 rigid placements",
                         "evaluations": n_eval, "distinct_nontrivial": len(sets), "rule": "distinct = vertex sets; evaluations = constructions",
                         "samples": [{"set": "prism5", "order": "shuffled"}], "failures": len(fails), "exhaustive": False})
